@@ -13,9 +13,10 @@
                               the tree: `text_gets_its_C_value_all_spellings` proves that this is what the model
                               (`evalStr`) returns on every spelling of the tree, of any size — the list-based
                               model itself is quadratic and would need minutes for 130 KB.
-    W <extra> <env> <text>    a text with non-ASCII alphanumerics (`V` = portable): `extra` = the non-ASCII characters
+    W <extra> <env> <text> [<tree>]
+                              a text with non-ASCII alphanumerics (`V` = portable): `extra` = the non-ASCII characters
                               of the text for which `char::is_alphanumeric` holds (hex), the parameter of
-                              `evalStrU` (Unicode.lean); full observation, Spec column `-`
+                              `evalStrU` (Unicode.lean); full observation; Spec column from the tree when one is sent
     U <text>                  legacy: totality only
     S <opts> <globals> <kind> <locals> <exprs>
                               shell-level scenario (see `Shell.lean`): opts `-` or flags `u` (set -u) `p` (set -o
@@ -238,7 +239,9 @@ def showFinal (c : Ctx) : String :=
 
 /-- the cause as the harness reads it from the shell's message -/
 def showShErr : ShErr → String
-  | .syntax .tokenError => "token"
+  | .syntax .tokenError => "TOKEN-ERROR-WITHOUT-KIND"
+  | .token .invalidNumericConstant => "numconst"
+  | .token .invalidCharacter => "badchar"
   | .syntax .incompleteExpression => "incomplete"
   | .syntax .missingOperator => "missingop"
   | .syntax .unclosedParenthesis => "paren"
@@ -375,21 +378,37 @@ def runS (opts globals kind locals exprs : String) : String :=
     showOutcome2 (runScenario allNames sc) ++ "\t" ++ specScenario sc
   | _, _, _, _ => "bad-case\t-"
 
-/-- `W`/`V` lines: the Unicode tokenizer with the per-case set of non-ASCII alphanumerics -/
-def runW (portable : Bool) (extraT envT textT : String) : String :=
+/-- `W`/`V` lines: the Unicode tokenizer with the per-case set of non-ASCII alphanumerics.  The Spec's own
+    lexer is ASCII C, so the Spec column speaks only when the harness sends the tree it rendered the text from:
+    the driver checks that the code's parser model builds exactly the vector of that tree (the hypothesis of
+    `checked_tree_gets_its_C_value_unicode`) and evaluates the tree with `Spec.evalExact`. -/
+def runW (portable : Bool) (extraT envT textT : String) (treeWords : List String) : String :=
   match decChars extraT, decEnv envT, decChars textT with
   | some extra, some env, some text =>
     if extra.any (fun c => c.toNat < 128) then "bad-case\t-" else
     let cause := evalStrCauseU extra portable text env
-    showRun (if portable then evalStrPortableU extra text env else some (evalStrU extra text env)) cause ++ "\t-"
+    let model := showRun (if portable then evalStrPortableU extra text env else some (evalStrU extra text env)) cause
+    let spec :=
+      if treeWords.isEmpty then "-"
+      else match parsePolish (treeWords.length + 1) treeWords with
+        | some (e, []) =>
+          if (match parseU extra text with | .ok a => a != rpn e | .error _ => true) then
+            "FAIL:parser-model-does-not-build-the-vector-of-the-tree-the-harness-rendered"
+          else if portable ∧ Spec.hasIncDec e then specError .portability cause
+          else if !Spec.inScope e then "-"
+          else match Spec.evalExact e env with
+            | none => specError .eval cause
+            | some r => "=" ++ showSpec (some r)
+        | _ => "FAIL:bad-tree-in-case"
+    model ++ "\t" ++ spec
   | _, _, _ => "bad-case\t-"
 
 def runLine (line : String) : String :=
   match words line with
   | "E" :: envT :: textT :: tree => runE false envT textT tree
   | "P" :: envT :: textT :: tree => runE true envT textT tree
-  | ["W", extraT, envT, textT] => runW false extraT envT textT
-  | ["V", extraT, envT, textT] => runW true extraT envT textT
+  | "W" :: extraT :: envT :: textT :: tree => runW false extraT envT textT tree
+  | "V" :: extraT :: envT :: textT :: tree => runW true extraT envT textT tree
   | ["U", _] => "total\t-"
   | "Z" :: envT :: tree =>
     match decEnv envT, parsePolish (tree.length + 1) tree with
